@@ -221,6 +221,9 @@ MUTANTS = [
     ('C01', 'lattice_lib.py', '    layers = _unstack_nd(trust_projection, [main_dim, cond_dim])',
      '    layers = _unstack_nd(weights, [main_dim, cond_dim])', 'X11',
      'every Edgeworth trust projected from the un-projected weights'),
+    ('C07', 'kronecker_factored_lattice_layer.py', '      constraints = KroneckerFactoredLatticeConstraints(\n          units=self.units,\n          scale=self.scale,',
+     '      constraints = KroneckerFactoredLatticeConstraints(\n          units=self.units,\n          scale=self.scale.read_value(),', 'W2',
+     'training-time kernel constraint sees a build-time snapshot of scale'),
     # ---- neutral variants (must stay silent)
     ('C08', 'lattice_lib.py', '    average = (layers[i] + layers[i + 1]) / 2.0', '    average = 0.5 * (layers[i] + layers[i + 1])',
      None, 'N: average written as 0.5 * sum'),
